@@ -85,6 +85,79 @@ func c11Scenarios(tier string) []*Scenario {
 			}
 		}
 	}
+	// a log shorter than the output: the in-memory log keeps the most recent lines (at least log_length
+	// of them, in order, the very last line included), the log file keeps everything
+	for _, total := range []int{25, 121, 122, 230} {
+		for _, last := range []string{"line", "nonl"} {
+			total, last := total, last
+			const length = 20
+			var sb strings.Builder
+			var all []string
+			for i := 0; i < total; i++ {
+				fmt.Fprintf(&sb, "o0.%d\n", i)
+				all = append(all, fmt.Sprintf("o0.%d", i))
+			}
+			tail := "o0.end\n"
+			if last == "nonl" {
+				tail = "o0.end-unterminated"
+			}
+			all = append(all, strings.TrimSuffix(tail, "\n"))
+			sc := &Scenario{
+				ID:         fmt.Sprintf("c11-wrap-%d-%s", total, last),
+				YAML:       projectYAML([]string{fmt.Sprintf("log_length: %d", length)}, PC{Name: "a", Lines: []string{"log_location: \"@DIR@/a.log\""}}),
+				Procs:      map[string]*ProcScript{"a": {Launches: [][]Action{{Out(sb.String()), Out(tail), Exit(0)}}}},
+				K:          0,
+				TickBudget: 1,
+			}
+			if total < 100 {
+				sc.K = 1
+			}
+			sc.Check = func(w *World) []Violation {
+				if w.Outcome != "completed" {
+					return []Violation{viol("C11", "not-completed:"+w.Outcome, "execution did not complete (outcome %s, blocked %v)", w.Outcome, w.Blocked)}
+				}
+				var vs []Violation
+				mem, err := w.Runner.GetProcessLog("a", 100000, 0)
+				if err != nil {
+					return []Violation{viol("C11", "log-error", "GetProcessLog: %v", err)}
+				}
+				min := length
+				if len(all) < min {
+					min = len(all)
+				}
+				switch {
+				case len(mem) < min:
+					vs = append(vs, viol("C11", "wrap:too-short", "log_length %d, %d lines written: the in-memory log holds %d", length, len(all), len(mem)))
+				case len(mem) > len(all) || strings.Join(mem, "\n") != strings.Join(all[len(all)-len(mem):], "\n"):
+					lastGot := ""
+					if len(mem) > 0 {
+						lastGot = mem[len(mem)-1]
+					}
+					vs = append(vs, viol("C11", "wrap:not-the-most-recent", "log_length %d, %d lines written: the in-memory log (%d lines, last %q) is not the most recent lines in order (last written %q)", length, len(all), len(mem), short40(lastGot), all[len(all)-1]))
+				}
+				data, err := os.ReadFile(filepath.Join(w.dir, "a.log"))
+				if err != nil {
+					return append(vs, viol("C11", "file-missing:proc", "log file: %v", err))
+				}
+				n := 0
+				for _, line := range strings.Split(string(data), "\n") {
+					var rec struct {
+						Message string `json:"message"`
+					}
+					if json.Unmarshal([]byte(line), &rec) == nil && tagged(rec.Message) {
+						if n < len(all) && rec.Message == all[n] {
+							n++
+						}
+					}
+				}
+				if n != len(all) {
+					vs = append(vs, viol("C11", "lost:wrap:file:proc", "the log file holds %d of the %d lines written, in order", n, len(all)))
+				}
+				return vs
+			}
+			scs = append(scs, sc)
+		}
+	}
 	return scs
 }
 
